@@ -89,8 +89,9 @@ class Track(object):
 
 
 def fm_track(cyl, head, sectors, order=None, gap1=16, gap3=21, sync=6, gap2=11, total_bytes=None,
-             index_mark=False, dam=0xFB, size_code=1, gap4_min=0, deleted=()):
-    """sectors: dict record -> bytes.  Returns Track."""
+             index_mark=False, dam=0xFB, size_code=1, gap4_min=0, deleted=(), id_override=None):
+    """sectors: dict record -> bytes.  Returns Track.  id_override: record -> (c, h, r, n) written in the ID
+    field instead of the natural address (CRC valid)."""
     t = Track()
     if index_mark:
         t.fm([0xFF] * gap1)
@@ -103,7 +104,7 @@ def fm_track(cyl, head, sectors, order=None, gap1=16, gap3=21, sync=6, gap2=11, 
         t.fm([0] * sync)
         p['idam'] = len(t.c)
         t.c += FM_IDAM
-        hdr = [cyl, head, r, size_code]
+        hdr = list(id_override[r]) if (id_override and r in id_override) else [cyl, head, r, size_code]
         c = crc16_fast([0xFE] + hdr)
         p['idfield'] = len(t.c)
         t.fm(hdr + [c >> 8, c & 0xFF])
@@ -130,7 +131,7 @@ def fm_track(cyl, head, sectors, order=None, gap1=16, gap3=21, sync=6, gap2=11, 
 
 
 def mfm_track(cyl, head, sectors, order=None, gap1=32, gap3=54, sync=12, gap2=22, total_bytes=None,
-              index_mark=False, dam=0xFB, size_code=1, gap4_min=0, deleted=()):
+              index_mark=False, dam=0xFB, size_code=1, gap4_min=0, deleted=(), id_override=None):
     t = Track()
     t.mfm([0x4E] * gap1)
     if index_mark:
@@ -144,7 +145,7 @@ def mfm_track(cyl, head, sectors, order=None, gap1=32, gap3=54, sync=12, gap2=22
         t.mfm([0] * sync)
         p['idam'] = len(t.c)
         t.c += MFM_A1 * 3
-        hdr = [0xFE, cyl, head, r, size_code]
+        hdr = [0xFE] + (list(id_override[r]) if (id_override and r in id_override) else [cyl, head, r, size_code])
         c = crc16_fast([0xA1] * 3 + hdr)
         p['idfield'] = len(t.c)
         t.mfm(hdr + [c >> 8, c & 0xFF])
@@ -250,7 +251,7 @@ def insert_v3_opcodes(r, raw, n=None, kinds=None, positions=None, skip_values=No
     return bytes(raw), log
 
 
-def hfe_file(tracks_side0, tracks_side1=None, encoding=2, version=1, lut_exact=False):
+def hfe_file(tracks_side0, tracks_side1=None, encoding=2, version=1, lut_exact=False, pad_last=True):
     """tracks_sideN: list of packed byte strings (LSB-first, v3 opcodes already
     inserted).  encoding: 0 = ISOIBM MFM, 2 = ISOIBM FM."""
     ntracks = len(tracks_side0)
@@ -293,6 +294,13 @@ def hfe_file(tracks_side0, tracks_side1=None, encoding=2, version=1, lut_exact=F
         lut[t * 4:t * 4 + 4] = struct.pack('<HH', off_blocks, tlen)
         body += tb
         off_blocks += len(tb) // 512
+        last_used = 2 * n if nsides == 2 else (n // 256) * 512 + (n % 256)
+        last_total = len(tb)
+    if not pad_last and ntracks:
+        # the file ends with the last byte in use: the final 512-byte block is not padded out
+        cutoff = last_total - ((nblk - 1) * 512 + (256 + (n % 256 or 256) if nsides == 2 else (n % 256 or 256)))
+        if cutoff > 0:
+            body = body[:len(body) - cutoff]
     return bytes(hdr) + bytes(lut) + bytes(body)
 
 
